@@ -530,13 +530,13 @@ func ruleOU18(c *Ctx) {
 				return
 			}
 			fa, ok := st.Addr.(*ssa.FieldAddr)
-			if !ok || namedTypeName(fa.X.Type()) != "ergo.GlobalOptions" {
+			if !ok {
 				return
 			}
-			if st.Val.Type().Underlying().String() != "string" {
+			name, isOpt := optionsFieldAddr(fa)
+			if !isOpt || st.Val.Type().Underlying().String() != "string" {
 				return
 			}
-			name := fieldName(fa.X.Type(), fa.Field)
 			cnt[c.Name(f)+"|"+name]++
 			n++
 			tf := &textFlow{c: c, field: name, seen: map[ssa.Value]bool{}}
